@@ -524,8 +524,9 @@ class RedfieldRelaxationTensor(RelaxationTensor):
         """Initializes the Redfield tensor with values 
         
         """
-        self._implementation(self.Hamiltonian,
-                             self.SystemBathInteraction)
+        with energy_units("int"):
+            self._implementation(self.Hamiltonian,
+                                 self.SystemBathInteraction)
 
 
     def convert_2_tensor(self):
